@@ -47,6 +47,14 @@ EmitScenario ==
               queries |-> SetToSeq({FullQueryOut(q) : q \in Queries})], "behaviours.ndjson")
   ELSE TRUE
 
+(* the long-series family has tens of thousands of histories: a seed-derived hash filter selects which are written *)
+OpCode(h) == CASE h.a = "ingest" -> 1 [] h.a = "blockflush" -> 2 [] h.a = "segrotate" -> 3 [] h.a = "restart" -> 5
+LayoutHash == FoldLeft(LAMBDA acc, h : (acc * 7 + OpCode(h) + h.i) % 1000003, PickSeed * 13 + 11, hist) % PickModL
+EmitLayoutPick ==
+  IF Done /\ nops >= 1 /\ LayoutHash = 0
+  THEN Write([n |-> Cardinality(chosen), nt |-> NT, order |-> order, nops |-> nops, hist |-> hist], "behaviours.ndjson")
+  ELSE TRUE
+
 EmitLayout ==
   IF Done
   THEN Write([n |-> Cardinality(chosen), nt |-> NT, order |-> order, nops |-> nops, hist |-> hist], "behaviours.ndjson")
